@@ -97,6 +97,10 @@ CLAIMED["C10"] = dict(engine="cluster", design="§6 C10",
    technique=TECH + "seeded RNG draws of the real volume growth and heartbeat-driven capacity changes between growth requests; AllocateVolume RPCs recorded at modelled volume servers on the simulated network; placement-rule oracle plus brute-force existence check",
    text="Partial claim: the rule check over arbitrary topologies is a function of (topology, RNG draws); the simulator owns the RNG and the interleaving with heartbeats that change free slots. For generated topologies and every replication string 000..222, with and without preferences, the set of servers the master really sends AllocateVolume to for one new volume id is 1+x+y+z distinct servers with a free slot of the requested disk type, z+1 in one rack, y in other racks of that data center, x in other data centers, preferences honoured; when no valid set exists nothing is allocated. That growth succeeds whenever a valid set exists is not claimed.",
    note=TOPONOTE + " Allocation RPCs always succeed here (their failure is outside the statement).")
+CLAIMED["C37"] = dict(engine="cluster", design="§6 C37",
+   technique=TECH + "source operations (uploads, deletes, compactions) scheduled against backup runs whose VolumeIncrementalCopy stream is gated on the simulated network, so writes are released while the stream is open; convergence oracle after every quiet backup run",
+   text="A source volume on a real volume server is written, deleted from and compacted while backup runs following command/backup.go (sync status, local compaction when the source revision moved, discard when longer, IncrementalBackup) pull through the real copy stream over the simulated network; the plan releases source writes while the stream is open. After every backup run during which the source was quiet, every key read from the backup volume equals the source's live content (missing, stale and undeleted blobs are violations).",
+   note=CLUSTERNOTE + " The backup command's steps are reproduced by the harness (runBackup reads process flags); stream faults are not injected.")
 
 PLANNED = {}
 
